@@ -1,4 +1,5 @@
 import VpnCloud.Model.Range
+import VpnCloud.Generated.Guards
 /-
   Model of `ClaimTable` (src/table.rs).  `SocketAddr` keys are abstract peer ids (`Nat`);
   the `HashMap` cache is an association list whose keys are kept distinct by `cacheInsert`;
@@ -43,8 +44,8 @@ def clearCache (t : Table) : Table := { t with cache := [] }
 
 /-- `ClaimTable::housekeep` -/
 def housekeep (t : Table) (now : Int) : Table :=
-  { t with cache := t.cache.filter (fun v => v.timeout ≥ now),
-           claims := t.claims.filter (fun e => e.timeout ≥ now) }
+  { t with cache := t.cache.filter (fun v => Generated.cacheLive v.timeout now),
+           claims := t.claims.filter (fun e => Generated.claimLive e.timeout now) }
 
 /-- `SmallVec::swap_remove` -/
 def swapRemove {α} (l : List α) (pos : Nat) : List α :=
